@@ -323,7 +323,12 @@ func vfHasParentChild(entries []vfEntry) bool {
 func TestVfC11Match(t *testing.T) {
 	st := vfkit.Stats("TestVfC11Match", "entry lists (full/domain/bare/regexp over a shared label pool, shuffled, duplicated, split over readers with comments) x probe names derived from entries; non-trivial = list has a domain entry that is a parent/child of another, or a probe with a non-LDH octet meets a regexp, or a label longer than 24 octets")
 	defer vfkit.Flush()
-	rapid.Check(t, func(t *rapid.T) {
+	rapid.Check(t, vfC11Prop(st))
+}
+
+// vfC11Prop is the property itself; the rapid test and the native fuzz target (rapid.MakeFuzz) share it.
+func vfC11Prop(st *vfkit.Collector) func(t *rapid.T) {
+	return func(t *rapid.T) {
 		pool := vfkit.GenLabelPool(t, rapid.IntRange(2, 6).Draw(t, "poolSize"))
 		names := vfkit.GenNameSet(t, pool, rapid.IntRange(2, 8).Draw(t, "nNames"))
 		nEntries := rapid.IntRange(0, 10).Draw(t, "nEntries")
@@ -453,5 +458,14 @@ func TestVfC11Match(t *testing.T) {
 			}
 			return map[string]any{"entries": ls, "probes": fmt.Sprint(probes[:min(len(probes), 4)])}
 		})
-	})
+	}
+}
+
+// FuzzVfC11Match drives the same property with Go's native coverage-guided fuzzing: the fuzzer mutates the bit stream
+// rapid draws from (thorough tier only; nothing is replayed in the quick tier apart from one seed input).
+func FuzzVfC11Match(f *testing.F) {
+	st := vfkit.Stats("FuzzVfC11Match", "the matcher property of TestVfC11Match driven by native coverage-guided fuzzing of rapid's draw stream (rapid.MakeFuzz); same oracle and non-triviality rule")
+	defer vfkit.Flush()
+	f.Add([]byte("vf seed input: any octets are a valid draw stream"))
+	f.Fuzz(rapid.MakeFuzz(vfC11Prop(st)))
 }
